@@ -17,8 +17,11 @@ PID = "C02"
 def _drop_step(runs):
     for r in runs:
         for e in r["events"]:
-            if e["ev"] == "Plan" and len(e["steps"]) >= 3:
-                e["steps"] = e["steps"][:-1]
+            real = [i for i, st in enumerate(e["steps"])] if e["ev"] == "Plan" else []
+            real = [i for i in real if not e["steps"][i]["internal"]]
+            if len(real) >= 3:
+                # the last step that goes to a service (steps the gateway answers itself are not judged by PlanOK)
+                del e["steps"][real[-1]]
                 return True
     return False
 
@@ -27,8 +30,8 @@ def _wrong_service(runs):
     for r in runs:
         urls = [s["url"] for s in r["reset"]["services"]]
         for e in r["events"]:
-            if e["ev"] == "Plan" and len(e["steps"]) >= 2 and len(urls) > 1:
-                st = e["steps"][-1]
+            if e["ev"] == "Plan" and len([x for x in e["steps"] if not x["internal"]]) >= 2 and len(urls) > 1:
+                st = [x for x in e["steps"] if not x["internal"]][-1]
                 st["url"] = [u for u in urls if u != st["url"]][0]
                 return True
     return False
